@@ -2,7 +2,7 @@
 From Coq Require Import NArith Bool List.
 From RS.Gen Require Import Prelude GenConsts GenRate.
 From RS.Model Require Import Field Sched Codec Machine Admissible Spec.
-From RS.Proofs Require Import RateFacts MachineFacts.
+From RS.Proofs Require Import RateFacts MachineFacts StepAll.
 Import ListNotations.
 Local Open Scope N_scope.
 
@@ -19,43 +19,31 @@ Proof.
 Qed.
 Print Assumptions C06_counts.
 
-(* streaming API (new / reset / add / encode / decode / validate / supports on all codec
-   types), in every state and for all argument values: *)
+(* every call of the machine - new / reset / add / encode / decode / validate / supports on all codec
+   types and the one-shot encode() / decode() -, in every state and for all argument values: *)
 (* 1. an Err always names a precondition that the call really violates *)
-Theorem C06_truthful : forall junk s o s' e,
-  is_oneshot o = false -> step junk s o = (s', RError e) -> In e (admissible s o).
-Proof. exact step_err_truthful. Qed.
+Theorem C06_truthful : forall junk s o s' e, step junk s o = (s', RError e) -> In e (admissible s o).
+Proof. exact step_err_truthful_all. Qed.
 Print Assumptions C06_truthful.
 
 (* 2. a call that violates no precondition does not fail *)
 Theorem C06_valid_ok : forall (junk : N -> N -> N -> N) s o s' r,
-  is_oneshot o = false -> admissible s o = [] -> step junk s o = (s', r) -> forall e, r <> RError e.
-Proof. exact step_valid_ok. Qed.
+  admissible s o = [] -> step junk s o = (s', r) -> forall e, r <> RError e.
+Proof. exact step_valid_ok_all. Qed.
 Print Assumptions C06_valid_ok.
 
 (* 3. a call that violates one is rejected (never Ok) *)
 Theorem C06_invalid_err : forall (junk : N -> N -> N -> N) s o,
-  is_oneshot o = false -> admissible s o <> [] -> exists e, snd (step junk s o) = RError e.
-Proof. exact step_invalid_err. Qed.
+  admissible s o <> [] -> exists e, snd (step junk s o) = RError e.
+Proof. exact step_invalid_err_all. Qed.
 Print Assumptions C06_invalid_err.
 
-(* lifted to every reachable state: along any operation sequence from the initial state,
-   every reported error is truthful for the state it was reported in *)
-Fixpoint truthful_run (junk : N -> N -> N -> N) (s : state) (ops : list op) : Prop :=
-  match ops with
-  | [] => True
-  | o :: rest =>
-    match snd (step junk s o) with RError e => In e (admissible s o) | _ => True end /\
-    truthful_run junk (fst (step junk s o)) rest
-  end.
-Theorem C06_run : forall junk ops s,
-  Forall (fun o => is_oneshot o = false) ops -> truthful_run junk s ops.
-Proof.
-  intros junk ops. induction ops as [|o ops IH]; intros s H; [exact I|].
-  inversion H as [|? ? Ho Hr]; subst. cbn [truthful_run]. split; [|apply IH; exact Hr].
-  destruct (step junk s o) as [s1 r] eqn:E. cbn [snd]. destruct r; try exact I.
-  eapply step_err_truthful; eauto.
-Qed.
+(* lifted to every reachable state: along ANY operation sequence from any state, a call returns an
+   error exactly when it violates a precondition in the state it is made in, and the error reported
+   is one of those that truthfully describe the violation *)
+Definition errors_exact := StepAll.errors_exact.
+Theorem C06_run : forall junk ops s, errors_exact junk s ops.
+Proof. exact run_errors_exact. Qed.
 Print Assumptions C06_run.
 
 (* non-vacuity: a state in which several preconditions are violated at once *)
